@@ -4,6 +4,7 @@ from ..r_canon import rule_hash_inputs, rule_order_free_hash, rule_no_ambient_no
 from ..r_construct import rule_literal_keys, rule_keep_lists
 from ..r_alias import rule_no_mutation_of_cached
 from ..r_construct import rule_seeded_string_complete as _rule_seeded
+from ..r_hygiene import rule_hygiene as _rule_hygiene
 
 LEVEL = 'other'
 
@@ -20,3 +21,4 @@ def run(ck, repo):
     rule_keep_lists(ck, repo)
     rule_no_mutation_of_cached(ck, repo, 'C19.D4-cached-value-not-mutated')
     _rule_seeded(ck, repo, 'C19.D4-seeded-string')
+    _rule_hygiene(ck, repo, 'C19.H-dataflow-hygiene', 'C19')
